@@ -30,8 +30,10 @@ def run(ctx):
   ctx.rule('R20.1', 'TransactionBuilder.inputs is mutated only in select_outgoing (push of self.outgoing.outpoint) and in pad_alignment_output / add_value (the result of select_cardinal_utxo)')
   ctx.rule('R20.2', 'in select_cardinal_utxo every candidate that can become best_match passed the `continue` guard testing runic_utxos.contains, inscribed_utxos.contains (derived from self.inscriptions) and locked_utxos.contains')
   ctx.rule('R20.3', 'at every TransactionBuilder::new call site each same-typed set argument originates from the matching wallet accessor / caller parameter, and new() stores each parameter in the field of the same name')
+  ctx.rule('R20.5', 'TransactionBuilder::select_outgoing (which combines the user-supplied satpoint with wallet amounts): every arithmetic / unwrap / index site is discharged by range analysis or a reviewed entry')
   ctx.rule('R20.4', 'select_outgoing returns Err under the additional-inscription test and for an unknown or out-of-range satpoint before the outgoing input is pushed; build_transaction rejects recipient == change and dust targets before select_outgoing')
 
+  _r20_5(ctx)
   # ---------------- R20.1
   n = 0
   for b in F.bodies.values():
@@ -207,3 +209,9 @@ def _contains_receiver(body, g):
 
 def _vars(body, g):
   return g.slice().var_names() | {str(f) for f in g.slice().fields}
+
+
+def _r20_5(ctx):
+  from ..panics import run_inventory
+  from ..tables.sites_C20 import TABLE
+  run_inventory(ctx, 'R20.5', ['ord::wallet::transaction_builder::TransactionBuilder::select_outgoing'], TABLE, partition=(16 if ctx.tier == 'thorough' else 1), floor_fns=1, floor_sites=2, label='select_outgoing')
